@@ -22,13 +22,20 @@ type ruleInfo struct {
 	Cats       []string
 	Default    bool
 	Deprecated bool
-	Repl       []string
+	Repl       []string // deprecated: the documented replacements (doctable.go)
+	CodeRepl   []string // deprecated: what the implementation publishes as replacements (judged, never used by the model)
+	// Undocumented: deprecated in the implementation but missing from the transcribed table (Repl falls back to CodeRepl; the run is marked incomplete)
+	Undocumented bool
+	Plugin       string // "" = built-in
 }
 
 type catInfo struct {
-	ID         string
-	Deprecated bool
-	Repl       []string
+	ID           string
+	Deprecated   bool
+	Repl         []string
+	CodeRepl     []string
+	Undocumented bool
+	Plugin       string
 }
 
 type tables struct {
@@ -70,7 +77,17 @@ func loadTables(ctx context.Context, client bufcheck.Client, version string, fv 
 			if k != kind {
 				continue
 			}
-			ri := &ruleInfo{ID: r.ID(), Default: r.Default(), Deprecated: r.Deprecated(), Repl: append([]string(nil), r.ReplacementIDs()...)}
+			// Repl is NOT what the code says (r.ReplacementIDs()): a deprecated ID stands for its DOCUMENTED
+			// replacements (doctable.go); CodeRepl keeps the code's answer for the table oracle of part A.
+			ri := &ruleInfo{ID: r.ID(), Default: r.Default(), Deprecated: r.Deprecated(), CodeRepl: append([]string(nil), r.ReplacementIDs()...)}
+			if ri.Deprecated {
+				if doc, ok := documentedReplacements(kind, ri.ID); ok {
+					ri.Repl = append([]string(nil), doc...)
+				} else {
+					ri.Repl = ri.CodeRepl
+					ri.Undocumented = true
+				}
+			}
 			for _, c := range r.Categories() {
 				ri.Cats = append(ri.Cats, c.ID())
 			}
@@ -83,7 +100,16 @@ func loadTables(ctx context.Context, client bufcheck.Client, version string, fv 
 	}
 	for _, c := range cats {
 		t.AllIDs[c.ID()] = true
-		t.Cats[c.ID()] = &catInfo{ID: c.ID(), Deprecated: c.Deprecated(), Repl: append([]string(nil), c.ReplacementIDs()...)}
+		ci := &catInfo{ID: c.ID(), Deprecated: c.Deprecated(), CodeRepl: append([]string(nil), c.ReplacementIDs()...)}
+		if ci.Deprecated {
+			if doc, ok := documentedReplacements("category", ci.ID); ok {
+				ci.Repl = append([]string(nil), doc...)
+			} else {
+				ci.Repl = ci.CodeRepl
+				ci.Undocumented = true
+			}
+		}
+		t.Cats[c.ID()] = ci
 	}
 	return t, nil
 }
@@ -313,12 +339,16 @@ type cfg struct {
 	// the module-level section. A non-empty module-level section replaces the workspace-level one as a
 	// whole; an empty one (no key at all) leaves the workspace-level section in force.
 	TopUse []string `json:"top_level_use,omitempty"`
+	// Plugins: names of the in-process check plugins of plugins.go, written as the `plugins:` key of a v2
+	// buf.yaml in this order. DisableBuiltin writes `disable_builtin: true` into the section.
+	Plugins        []string `json:"plugins,omitempty"`
+	DisableBuiltin bool     `json:"disable_builtin,omitempty"`
 }
 
 // sectionEmpty: the configuration writes no key into its lint / breaking section.
 func (c cfg) sectionEmpty() bool {
 	// v2 `disallow_comment_ignores: false` spells out the default value: it does not make a section non-empty
-	return len(c.Use) == 0 && len(c.Except) == 0 && len(c.Ignore) == 0 && len(c.IgnoreOnly) == 0 &&
+	return len(c.Use) == 0 && len(c.Except) == 0 && len(c.Ignore) == 0 && len(c.IgnoreOnly) == 0 && !c.DisableBuiltin &&
 		(c.Type != "lint" || c.AllowComments == "" || (c.Version == "v2" && c.AllowComments == "on"))
 }
 
@@ -370,7 +400,16 @@ func (c cfg) yaml() string {
 			fmt.Fprintf(&b, "  allow_comment_ignores: %v\n", on)
 		}
 	}
+	if c.DisableBuiltin {
+		b.WriteString("  disable_builtin: true\n")
+	}
 	out := "version: " + c.Version + "\n"
+	if len(c.Plugins) > 0 {
+		out += "plugins:\n"
+		for _, p := range c.Plugins {
+			out += "  - plugin: " + p + "\n"
+		}
+	}
 	if c.ModuleDir != "" {
 		out += "modules:\n  - path: " + c.ModuleDir + "\n"
 		if c.PerModule && (b.Len() > 0 || len(c.TopUse) > 0) {
@@ -419,6 +458,9 @@ func (c cfg) key() string {
 	k := fmt.Sprintf("%s|%s|u=%s|e=%s|i=%s|io=%v|ac=%s|xi=%v|md=%s|pm=%v", c.Version, c.Type, strings.Join(c.Use, ","), strings.Join(c.Except, ","), strings.Join(c.Ignore, ","), c.IgnoreOnly, c.AllowComments, c.ExcludeImports, c.ModuleDir, c.PerModule)
 	if len(c.TopUse) > 0 {
 		k += "|top=" + strings.Join(c.TopUse, ",")
+	}
+	if len(c.Plugins) > 0 || c.DisableBuiltin {
+		k += fmt.Sprintf("|pl=%s|db=%v", strings.Join(c.Plugins, ","), c.DisableBuiltin)
 	}
 	return k
 }
